@@ -13,6 +13,8 @@
 //!   table    ps us        the PlaneBuilder::build loop (pairwise are_ambiguous, i < j) and the
 //!                         Routes::find_route loop (first pattern whose unapply_route_uri is Ok),
 //!                         over the real RoutePattern functions; also every matching index
+//!   server   ps           (feature swimos_server_app) the real ServerBuilder::add_route.. / build():
+//!                         accepted, or the AmbiguousRoutes error PlaneBuilder::build produced
 use serde_json::{json, Map, Value};
 use std::collections::HashMap;
 use std::str::FromStr;
@@ -195,6 +197,60 @@ fn do_table(ps: &[Value], us: &[Value]) -> Value {
     json!({"accepted": bad.is_empty(), "amb": bad.into_iter().collect::<Vec<_>>(), "res": res})
 }
 
+/// The real server: ServerBuilder::add_route for every pattern, then ServerBuilder::build, whose first
+/// step is PlaneBuilder::build (server/swimos_server_app/src/plane.rs).  Only compiled with
+/// `--features swimos_server_app` (the server crate is heavy; the other h_core binaries do not need it).
+#[cfg(feature = "swimos_server_app")]
+mod server {
+    use futures::future::BoxFuture;
+    use serde_json::{json, Value};
+    use std::collections::HashMap;
+    use swimos_api::agent::{Agent, AgentConfig, AgentContext, AgentInitResult};
+    use swimos_route::{RoutePattern, RouteUri};
+    use swimos_server_app::{ServerBuilder, ServerBuilderError};
+
+    struct DummyAgent;
+
+    impl Agent for DummyAgent {
+        fn run(
+            &self,
+            _route: RouteUri,
+            _route_params: HashMap<String, String>,
+            _config: AgentConfig,
+            _context: Box<dyn AgentContext + Send>,
+        ) -> BoxFuture<'static, AgentInitResult> {
+            panic!("Not runnable.");
+        }
+    }
+
+    pub fn do_server(ps: &[Value]) -> Value {
+        let mut builder = ServerBuilder::with_plane_name("plane");
+        for p in ps {
+            match RoutePattern::parse_str(p.as_str().unwrap_or("")) {
+                Ok(pat) => builder = builder.add_route(pat, DummyAgent),
+                Err(_) => return json!({"bad": "pattern"}),
+            }
+        }
+        let rt = tokio::runtime::Builder::new_current_thread()
+            .enable_all()
+            .build()
+            .expect("runtime");
+        match rt.block_on(builder.build()) {
+            Ok(_) => json!({"accepted": true}),
+            Err(ServerBuilderError::BadRoutes(e)) => json!({"accepted": false, "error": e.to_string()}),
+            Err(e) => json!({"other_error": e.to_string()}),
+        }
+    }
+}
+
+#[cfg(not(feature = "swimos_server_app"))]
+mod server {
+    use serde_json::{json, Value};
+    pub fn do_server(_ps: &[Value]) -> Value {
+        json!({"unavailable": true})
+    }
+}
+
 fn run_case(case: &Value) -> Value {
     let acts = case["acts"].as_array().expect("acts");
     let mut obs = Vec::with_capacity(acts.len());
@@ -210,6 +266,7 @@ fn run_case(case: &Value) -> Value {
                 a["ps"].as_array().map(|v| v.as_slice()).unwrap_or(&[]),
                 a["us"].as_array().map(|v| v.as_slice()).unwrap_or(&[]),
             ),
+            "server" => server::do_server(a["ps"].as_array().map(|v| v.as_slice()).unwrap_or(&[])),
             other => json!({"bad": format!("unknown op {}", other)}),
         };
         obs.push(o);
